@@ -21,9 +21,40 @@ class Collect:
     def violation(self, case, reason, **kw): self.d[case] = ("harness violation: " + reason[:200], True, "aborted", None)
 
 
+def extra_cases(col, tier, rng):
+    """cases of this property's own: many rows with narrow numpy-scalar bounds and indices (arithmetic on them must not happen in their own type),
+    and row-length arrays whose dtype equals one of the two index dtypes (the array stays the caller's under both configurations)"""
+    import numpy as np
+    from npstructures import RaggedArray
+    from vlib import guarded
+    rows = [list(range(10 * i, 10 * i + (i * 7) % 4)) for i in range(150)]
+    mk = lambda: RaggedArray(rows, dtype=int)
+    def canon(x):
+        return x.tolist() if hasattr(x, "tolist") else x
+    IDX = [("np.int8(70):np.int8(90)", lambda a: a[np.int8(70):np.int8(90)]), ("np.uint8(130):np.uint8(140)", lambda a: a[np.uint8(130):np.uint8(140)]),
+           ("np.int16(20):np.int16(30)", lambda a: a[np.int16(20):np.int16(30)]), ("np.int8(-80):np.int8(-66)", lambda a: a[np.int8(-80):np.int8(-66)]),
+           ("np.int8(100)", lambda a: a[np.int8(100)]), ("np.uint8(140)", lambda a: a[np.uint8(140)]), ("np.int8(-100)", lambda a: a[np.int8(-100)]),
+           ("np.int8(70):np.int8(90), 1:", lambda a: a[np.int8(70):np.int8(90), 1:]), ("np.uint8(3):np.uint8(149):np.uint8(70)", lambda a: a[np.uint8(3):np.uint8(149):np.uint8(70)]),
+           ("np.array([100, 3, 127], int8)", lambda a: a[np.array([100, 3, 127], dtype=np.int8)]), ("np.array([140, 3, 255 - 110], uint8)", lambda a: a[np.array([140, 3, 145], dtype=np.uint8)]),
+           ("[np.int8(100), np.int8(7)]", lambda a: a[[np.int8(100), np.int8(7)]]), ("np.int8(70):np.int8(90) then .sum(-1)", lambda a: a[np.int8(70):np.int8(90)].sum(axis=-1)),
+           ("np.int8(101), np.int8(1)", lambda a: a[np.int8(101), np.int8(1)])]
+    for name, f in IDX:
+        col.record("long-array [" + name + "]", guarded(lambda: canon(f(mk()))), None, None, True, "narrow-scalar-bounds", py=f"RaggedArray(<150 rows>)[{name}]")
+    for ldt in ("int64", "int32", "uint8"):
+        def own():
+            lens = np.array([2, 0, 3, 1], dtype=ldt); data = np.arange(6)
+            a = RaggedArray(data, lens); first = a.tolist()
+            lens[:] = np.array([1, 3, 0, 2], dtype=ldt)            # the caller reuses its array for the next batch
+            b = RaggedArray(np.arange(10, 16), lens)
+            return [first, a.tolist(), np.asarray(a.lengths).tolist(), a.sum(axis=-1).tolist(), b.tolist()]
+        col.record(f"row lengths given as a {ldt} array, then rewritten by the caller", guarded(own), None, None, True, "ownership/row-lengths",
+                   py=f"lens = np.array([2,0,3,1], dtype='{ldt}'); a = RaggedArray(np.arange(6), lens); lens[:] = [1,3,0,2]; a.tolist(), a.lengths, a.sum(axis=-1)")
+
+
 def families(tier, seed):
     from harness import c01, c06
     col = Collect()
+    extra_cases(col, tier, random.Random(seed))
     fam_ra2.LIGHT[0] = True
     try:
         for f in (fam_ra2.run_c04, fam_ra2.run_c05, fam_ra2.run_c07, fam_ra2.run_c08, fam_ra2.run_c09):
